@@ -807,6 +807,8 @@ def agg_shape(f, rv, depth=3):
         for o in rv["ops"]:
             l = op_local(o)
             sub = None
+            if o["k"] == "const":
+                sub = str(o.get("v") or o.get("def") or "const")
             if l is not None:
                 du = defuse(f)
                 aggs = [x for x in du.origins[l] if x[0] == "agg"]
@@ -822,7 +824,7 @@ def agg_shape(f, rv, depth=3):
         if l is not None:
             du = defuse(f)
             aggs = [x for x in du.origins[l] if x[0] == "agg"]
-            if len(aggs) == 1 and len(du.origins[l]) == 1:
+            if len(aggs) == 1 and all(x[0] in ("agg", "const") for x in du.origins[l]):
                 return agg_shape(f, aggs[0][3], depth)
         return "_"
     return "_"
